@@ -173,6 +173,7 @@ func packageVarsUsed(repo, dir, fn string) ([]string, error) {
 	funcs := map[string]*ast.FuncDecl{}
 	for _, pkg := range pkgs {
 		for _, f := range pkg.Files {
+			StripYields(f)
 			for _, d := range f.Decls {
 				switch x := d.(type) {
 				case *ast.GenDecl:
